@@ -36,6 +36,27 @@ def c19_run(prog, flags, text, kind):
         raise SyntaxError("compile() of user text")
     def det_print(*a, **k):
         hits.append("print")
+    depth = [0]
+    real_vy_eval = H.vy_eval
+    def vy_eval_marked(item, ctx):
+        depth[0] += 1
+        try:
+            return real_vy_eval(item, ctx)
+        finally:
+            depth[0] -= 1
+    real_sympy = H.__dict__["sympy"]
+    class TextGuard:
+        """sympy functions given a str while user text is being evaluated: sympify/nsimplify eval() such text"""
+        def __getattr__(self, name):
+            attr = getattr(real_sympy, name)
+            if callable(attr) and not isinstance(attr, type):
+                def guarded(*a, **k):
+                    if depth[0] > 0 and any(isinstance(x, str) for x in a):
+                        hits.append("sympy." + name + " on text")
+                        return 0
+                    return attr(*a, **k)
+                return guarded
+            return attr
     real_transpile = T.transpile
     def tr(*a, **k):
         c = real_transpile(*a, **k)
@@ -48,6 +69,8 @@ def c19_run(prog, flags, text, kind):
     real_stdout = _sys.stdout
     try:
         H.ast = FakeAst
+        H.__dict__["sympy"] = TextGuard()
+        H.vy_eval = vy_eval_marked; E.vy_eval = vy_eval_marked; M.vy_eval = vy_eval_marked
         for m in mods:
             m.__dict__["eval"] = det_eval; m.__dict__["exec"] = det_exec; m.__dict__["compile"] = det_compile; m.__dict__["print"] = det_print
         M.transpile = tr
@@ -62,6 +85,8 @@ def c19_run(prog, flags, text, kind):
     finally:
         _sys.stdout = real_stdout
         H.ast = _ast
+        H.__dict__["sympy"] = real_sympy
+        H.vy_eval = real_vy_eval; E.vy_eval = real_vy_eval; M.vy_eval = real_vy_eval
         M.transpile = real_transpile
         T.transpile = real_transpile
         for m, n, v, had in saved:
@@ -87,7 +112,7 @@ def contained(prog, flags, text, kind, expect_output, expect_error):
 PROGRAMS = [
     ("print", "?,", "", True, False, 3), ("print_noline", "?₴", "", False, False, 3), ("print_keep", "?…_", "", True, False, 3), ("print_space", "?¨,", "", True, False, 3),
     ("implicit", "?", "", True, False, 3), ("implicit_second_line", "??_", "", True, False, 3), ("eval_elem", "?E,", "", False, False, 2), ("eval_implicit_join", "?E", "j", False, False, 2), ("call_on_string", "?†", "", True, False, 3),
-    ("list_output", '??"', "", True, False, 3), ("wrapped_print", "?w,", "", True, False, 3), ("function_print", "λ1;,", "", True, False, 2), ("lazy_print", "?ɾ,", "", True, False, 2),
+    ("list_output", '??"', "", True, False, 3), ("wrapped_print", "?w,", "", True, False, 3), ("function_print", "λ1;,", "", True, False, 2), ("lazy_print", "?ɾ,", "", True, False, 2), ("lazy_print_twice", "?ɾ…,", "", True, False, 2), ("lazy_print_dup", "?ɾ:,,", "", True, False, 2), ("lazy_print_after_len", "?ɾ:L_,", "", True, False, 2), ("list_print_twice", "?w…,", "", True, False, 2),
     ("all_strings_flag", "?", "Ṡ", True, False, 3), ("array_flag", "?", "a", True, False, 3), ("show_code_flag", "?,", "c", True, False, 2), ("stack_flag", "??", "W", True, False, 2),
     ("error_eager", "`a`₀β", "", False, True, 1), ("error_lazy_output", "3ɾƛ`a`β;", "", False, True, 1), ("error_in_print", "3ɾƛ`a`β;,", "", False, True, 1),
     ("vy_exec_elem", "?Ė", "", False, False, 1), ("no_output_flag", "?", "O", False, False, 2), ("dup_eval_sum", "?:E+", "", False, False, 1),
